@@ -332,6 +332,15 @@ func makeColumn(kind, merge string) (column.Column, bool) {
 			return column.ForString(column.WithMerge(func(v, d string) string { return v + d })), true
 		case "keep":
 			return column.ForString(column.WithMerge(func(v, d string) string { return v })), true
+		case "tail":
+			// a result that is a sub-string of the delta (shares its memory): the last two bytes of a
+			// delta longer than two bytes; otherwise the concatenation
+			return column.ForString(column.WithMerge(func(v, d string) string {
+				if len(d) > 2 {
+					return d[len(d)-2:]
+				}
+				return v + d
+			})), true
 		}
 		return column.ForString(), true
 	case "enum":
